@@ -1665,10 +1665,21 @@ impl<T: PPGEvaluatorStrategy> PPGEvaluator<T> {
                             .to_string(),
                     ));
                 }
-                JobState::Output(JobStateOutput::NotReady(vs))
-                | JobState::Ephemeral(JobStateEphemeral::NotReady(vs)) => match vs {
+                JobState::Output(JobStateOutput::NotReady(vs)) => match vs {
                     ValidationStatus::Unknown | ValidationStatus::Invalidated => return Ok(false),
                     ValidationStatus::Validated => {}
+                },
+                JobState::Ephemeral(JobStateEphemeral::NotReady(vs)) => match vs {
+                    ValidationStatus::Unknown | ValidationStatus::Invalidated => return Ok(false),
+                    ValidationStatus::Validated => {
+                        // a validated ephemeral may still turn out to be required by
+                        // its own downstreams - and then it needs us.
+                        if Self::downstream_requirement_status(dag, jobs, downstream_idx)?
+                            != Required::No
+                        {
+                            return Ok(false);
+                        }
+                    }
                 },
                 JobState::Output(JobStateOutput::FinishedUpstreamFailure)
                 | JobState::Ephemeral(JobStateEphemeral::FinishedUpstreamFailure)
@@ -2291,10 +2302,19 @@ impl<T: PPGEvaluatorStrategy> PPGEvaluator<T> {
                 Required::Unknown => return Ok(Required::Unknown),
                 Required::Yes => return Ok(Required::Yes),
                 Required::No => match jobs[downstream_idx].state {
-                    JobState::Output(JobStateOutput::NotReady(ValidationStatus::Validated))
-                    | JobState::Ephemeral(JobStateEphemeral::NotReady(
+                    JobState::Output(JobStateOutput::NotReady(ValidationStatus::Validated)) => {}
+                    JobState::Ephemeral(JobStateEphemeral::NotReady(
                         ValidationStatus::Validated,
-                    )) => {}
+                    )) => {
+                        // the requirement is transitive: a validated ephemeral that is
+                        // (or may still become) required by its own downstreams requires
+                        // its ephemeral upstreams in turn.
+                        match Self::downstream_requirement_status(dag, jobs, downstream_idx)? {
+                            Required::Yes => return Ok(Required::Yes),
+                            Required::Unknown => had_unknown = true,
+                            Required::No => {}
+                        }
+                    }
 
                     JobState::Output(JobStateOutput::NotReady(ValidationStatus::Invalidated)) => {
                         error!("\tRequired::Yes");
